@@ -39,6 +39,10 @@ import (
 type Workload struct {
 	Scripts  map[string][]plgen.Stmt `json:"scripts"` // "r.p" is the root
 	StepRate float64                 `json:"step_rate"`
+	// Runs: the root is run this many times in a row (fresh point each time) while
+	// the pooled tasks of the earlier runs - possibly abandoned in the middle of a
+	// nested block by an error, an exit or a cancellation - are handed out again.
+	Runs int `json:"runs,omitempty"`
 }
 
 type Prop struct{}
@@ -171,6 +175,7 @@ func (Prop) Generate(seed uint64, tier string) *core.Plan {
 		body = append(body, g.leaf())
 	}
 	w.Scripts["r.p"] = body
+	w.Runs = []int{1, 2, 3, 4}[r.Intn(4)]
 	p := &core.Plan{Property: "C13", Version: core.HarnessVersion, Seed: seed, Tier: tier,
 		ChooserSeed: simrt.Mix(seed, 13),
 		Rates:       simrt.Rates{Recycle: []float64{0, 0.6, 0.95}[r.Intn(3)], Purge: 0.02, Shuffle: 0.3},
@@ -470,121 +475,141 @@ func (Prop) Run(p *core.Plan) *core.Result {
 	if len(errs) > 0 {
 		return &core.Result{Infra: fmt.Sprintf("generated call tree rejected by the loader: %v", errs)}
 	}
-	pt := input.GetPoint()
-	input.InitPt(pt, "m", map[string]string{"t": "1"}, map[string]any{"message": "x"}, world.BaseTime)
-	var rerr *errchain.PlError
-	pv, blown := core.Guard(func() { rerr = scripts["r.p"].Run(pt, hs) })
-	res.Evals = 1
-	if blown || pv != nil {
-		simrt.SetBudget(0)
-		var sb strings.Builder
-		for _, n := range names {
-			fmt.Fprintf(&sb, "--- %s\n%s", n, src[n])
+	oneRun := func(run int) *core.Result {
+		pt := input.GetPoint()
+		input.InitPt(pt, "m", map[string]string{"t": "1"}, map[string]any{"message": "x"}, world.BaseTime)
+		var rerr *errchain.PlError
+		pv, blown := core.Guard(func() { rerr = scripts["r.p"].Run(pt, hs) })
+		res.Evals++
+		if blown || pv != nil {
+			simrt.SetBudget(0)
+			var sb strings.Builder
+			for _, n := range names {
+				fmt.Fprintf(&sb, "--- %s\n%s", n, src[n])
+			}
+			res.NonTrivial = true
+			if blown {
+				res.Violation = &core.Violation{Class: "C13/no-return", Key: "no-return",
+					Detail: fmt.Sprintf("the run of a terminating call tree did not return within %d simulated events\nfaults: %v\n%s", 3000000, faults, sb.String())}
+			} else {
+				res.Violation = &core.Violation{Class: "C13/panic", Key: "panic", Detail: fmt.Sprintf("run panicked: %v\nfaults: %v\n%s", pv, faults, sb.String())}
+			}
+			return res
 		}
-		res.NonTrivial = true
-		if blown {
-			res.Violation = &core.Violation{Class: "C13/no-return", Key: "no-return",
-				Detail: fmt.Sprintf("the run of a terminating call tree did not return within %d simulated events\nfaults: %v\n%s", 3000000, faults, sb.String())}
-		} else {
-			res.Violation = &core.Violation{Class: "C13/panic", Key: "panic", Detail: fmt.Sprintf("run panicked: %v\nfaults: %v\n%s", pv, faults, sb.String())}
+		gotFields := map[string]string{}
+		for _, k := range keyNames {
+			if v, ok := pt.Fields[k]; ok {
+				gotFields[k] = fmtVal(v)
+			}
 		}
-		return res
-	}
-	gotFields := map[string]string{}
-	for _, k := range keyNames {
-		if v, ok := pt.Fields[k]; ok {
-			gotFields[k] = fmtVal(v)
-		}
-	}
-	input.PutPoint(pt)
+		input.PutPoint(pt)
 
-	// model
-	m := &model{w: &w, pos: pos, faults: faults, fields: map[string]*int64{}, hasKey: map[string]bool{}}
-	root := &mframe{name: "r.p", scopes: []map[string]*int64{{}}}
-	m.stmts(root, w.Scripts["r.p"])
-	res.Digest ^= core.Hash(fmt.Sprint(trace), fmt.Sprint(faults), fmt.Sprint(gotFields), fmt.Sprint(rerr))
-	res.Sig = core.Hash(fmt.Sprint(src), fmt.Sprint(faults))
-	res.NonTrivial = m.uses > 0 && len(m.trace) > 0
-	res.Sample = map[string]interface{}{"scripts": src, "faults": faults}
-	if m.uses > 0 {
-		res.Probes["use_executed"] += m.uses
-	}
-	viol := func(class, key, detail string) *core.Result {
-		res.NonTrivial = true
-		var sb strings.Builder
-		for _, n := range names {
-			fmt.Fprintf(&sb, "--- %s\n%s", n, src[n])
+		// model
+		m := &model{w: &w, pos: pos, faults: faults, fields: map[string]*int64{}, hasKey: map[string]bool{}}
+		root := &mframe{name: "r.p", scopes: []map[string]*int64{{}}}
+		m.stmts(root, w.Scripts["r.p"])
+		res.Digest ^= core.Hash(run, fmt.Sprint(trace), fmt.Sprint(faults), fmt.Sprint(gotFields), fmt.Sprint(rerr))
+		res.Sig = core.Hash(res.Sig, fmt.Sprint(src), fmt.Sprint(faults))
+		res.NonTrivial = res.NonTrivial || (m.uses > 0 && len(m.trace) > 0)
+		res.Sample = map[string]interface{}{"scripts": src, "faults": faults}
+		if m.uses > 0 {
+			res.Probes["use_executed"] += m.uses
 		}
-		res.Violation = &core.Violation{Class: "C13/" + class, Key: key, Detail: detail + fmt.Sprintf("\nfaults per executed step(): %v (1=error 2=exit 3=signal)\n%s", faults, sb.String())}
-		return res
-	}
-	if m.over || m.nstep != len(faults) {
-		return viol("trace", "step-count", fmt.Sprintf("the run executed %d step() calls, the model %d", len(faults), m.nstep))
-	}
-	// trace equality (isolation, order of effects, resume, reach of exit)
-	for i := 0; i < len(trace) || i < len(m.trace); i++ {
-		if i >= len(trace) {
-			return viol("trace", "trace-short", fmt.Sprintf("observation #%d missing: model expects %v", i, m.trace[i]))
-		}
-		if i >= len(m.trace) {
-			key := "trace-extra"
-			if m.err != nil {
-				key = "effect-after-error"
-			} else if m.cancel {
-				key = "effect-after-cancel"
+		viol := func(class, key, detail string) *core.Result {
+			res.NonTrivial = true
+			var sb strings.Builder
+			for _, n := range names {
+				fmt.Fprintf(&sb, "--- %s\n%s", n, src[n])
 			}
-			return viol("trace", key, fmt.Sprintf("observation #%d %v happened but the model expects the run to have stopped before it", i, trace[i]))
+			res.Violation = &core.Violation{Class: "C13/" + class, Key: key, Detail: fmt.Sprintf("run #%d of the root on a fresh point: ", run) + detail + fmt.Sprintf("\nfaults per executed step(): %v (1=error 2=exit 3=signal)\n%s", faults, sb.String())}
+			return res
 		}
-		if trace[i] != m.trace[i] {
-			key := "trace-value"
-			if trace[i].Script != m.trace[i].Script || trace[i].What != m.trace[i].What {
-				key = "trace-order"
+		if m.over || m.nstep != len(faults) {
+			return viol("trace", "step-count", fmt.Sprintf("the run executed %d step() calls, the model %d", len(faults), m.nstep))
+		}
+		// trace equality (isolation, order of effects, resume, reach of exit)
+		for i := 0; i < len(trace) || i < len(m.trace); i++ {
+			if i >= len(trace) {
+				return viol("trace", "trace-short", fmt.Sprintf("observation #%d missing: model expects %v", i, m.trace[i]))
 			}
-			return viol("trace", key, fmt.Sprintf("observation #%d is %v, model expects %v", i, trace[i], m.trace[i]))
+			if i >= len(m.trace) {
+				key := "trace-extra"
+				if m.err != nil {
+					key = "effect-after-error"
+				} else if m.cancel {
+					key = "effect-after-cancel"
+				}
+				return viol("trace", key, fmt.Sprintf("observation #%d %v happened but the model expects the run to have stopped before it", i, trace[i]))
+			}
+			if trace[i] != m.trace[i] {
+				key := "trace-value"
+				if trace[i].Script != m.trace[i].Script || trace[i].What != m.trace[i].What {
+					key = "trace-order"
+				}
+				return viol("trace", key, fmt.Sprintf("observation #%d is %v, model expects %v", i, trace[i], m.trace[i]))
+			}
+		}
+		// final point
+		for _, k := range keyNames {
+			want, has := "", m.hasKey[k]
+			if has {
+				want = show(m.fields[k])
+			}
+			got, ghas := gotFields[k]
+			if has != ghas || want != got {
+				return viol("point", "final-point", fmt.Sprintf("final field %s: got %q (present=%v), model %q (present=%v)", k, got, ghas, want, has))
+			}
+		}
+		// error
+		if m.err == nil {
+			if rerr != nil {
+				return viol("error", "unexpected-error", fmt.Sprintf("run returned %v, model expects no error", rerr))
+			}
+			if m.cancel {
+				res.Probes["cancelled_runs"]++
+			}
+			return nil
+		}
+		if rerr == nil {
+			return viol("error", "error-swallowed", fmt.Sprintf("run returned nil, model expects an error with chain %v", m.err))
+		}
+		if len(rerr.PosChain) != len(m.err) {
+			return viol("error", "chain-length", fmt.Sprintf("error chain %v, model expects %v", rerr.PosChain, m.err))
+		}
+		for i, e := range m.err {
+			g := rerr.PosChain[i]
+			if g.File != e.File || g.Ln != e.Ln || g.Col != e.Col {
+				return viol("error", "chain-entry", fmt.Sprintf("error chain entry %d is %s:%d:%d, model expects %s:%d:%d (full chain %v)", i, g.File, g.Ln, g.Col, e.File, e.Ln, e.Col, rerr.PosChain))
+			}
+		}
+		// rendering
+		want := fmt.Sprintf("%s:%d:%d: injected run-time error", m.err[0].File, m.err[0].Ln, m.err[0].Col)
+		for _, e := range m.err[1:] {
+			want += fmt.Sprintf("\n%s:%d:%d:", e.File, e.Ln, e.Col)
+		}
+		if rerr.Error() != want {
+			return viol("error", "rendering", fmt.Sprintf("error renders as %q, want %q", rerr.Error(), want))
+		}
+		res.Probes[fmt.Sprintf("error_chain_depth_%d", len(m.err))]++
+		if run > 0 {
+			res.Probes["runs_after_a_failed_or_cancelled_run"]++
+		}
+		return nil
+
+	}
+	runs := w.Runs
+	if runs < 1 {
+		runs = 1
+	}
+	for run := 0; run < runs; run++ {
+		// every run of the history starts from a fresh point, an untriggered signal and an empty trace;
+		// pooled tasks and points left by the earlier runs of this plan stay in the simulated pools
+		trace, faults = nil, nil
+		hs.on = false
+		if out := oneRun(run); out != nil {
+			return out
 		}
 	}
-	// final point
-	for _, k := range keyNames {
-		want, has := "", m.hasKey[k]
-		if has {
-			want = show(m.fields[k])
-		}
-		got, ghas := gotFields[k]
-		if has != ghas || want != got {
-			return viol("point", "final-point", fmt.Sprintf("final field %s: got %q (present=%v), model %q (present=%v)", k, got, ghas, want, has))
-		}
-	}
-	// error
-	if m.err == nil {
-		if rerr != nil {
-			return viol("error", "unexpected-error", fmt.Sprintf("run returned %v, model expects no error", rerr))
-		}
-		if m.cancel {
-			res.Probes["cancelled_runs"]++
-		}
-		return res
-	}
-	if rerr == nil {
-		return viol("error", "error-swallowed", fmt.Sprintf("run returned nil, model expects an error with chain %v", m.err))
-	}
-	if len(rerr.PosChain) != len(m.err) {
-		return viol("error", "chain-length", fmt.Sprintf("error chain %v, model expects %v", rerr.PosChain, m.err))
-	}
-	for i, e := range m.err {
-		g := rerr.PosChain[i]
-		if g.File != e.File || g.Ln != e.Ln || g.Col != e.Col {
-			return viol("error", "chain-entry", fmt.Sprintf("error chain entry %d is %s:%d:%d, model expects %s:%d:%d (full chain %v)", i, g.File, g.Ln, g.Col, e.File, e.Ln, e.Col, rerr.PosChain))
-		}
-	}
-	// rendering
-	want := fmt.Sprintf("%s:%d:%d: injected run-time error", m.err[0].File, m.err[0].Ln, m.err[0].Col)
-	for _, e := range m.err[1:] {
-		want += fmt.Sprintf("\n%s:%d:%d:", e.File, e.Ln, e.Col)
-	}
-	if rerr.Error() != want {
-		return viol("error", "rendering", fmt.Sprintf("error renders as %q, want %q", rerr.Error(), want))
-	}
-	res.Probes[fmt.Sprintf("error_chain_depth_%d", len(m.err))]++
 	return res
 }
 
@@ -600,7 +625,7 @@ func (Prop) Shrink(p *core.Plan) []*core.Plan {
 	}
 	sort.Strings(names)
 	mk := func(mod func(nw *Workload)) {
-		nw := Workload{StepRate: w.StepRate, Scripts: map[string][]plgen.Stmt{}}
+		nw := Workload{StepRate: w.StepRate, Runs: w.Runs, Scripts: map[string][]plgen.Stmt{}}
 		for k, v := range w.Scripts {
 			nw.Scripts[k] = v
 		}
@@ -608,6 +633,9 @@ func (Prop) Shrink(p *core.Plan) []*core.Plan {
 		q := p.Clone()
 		q.SetWorkload(&nw)
 		out = append(out, q)
+	}
+	if w.Runs > 1 {
+		mk(func(nw *Workload) { nw.Runs = w.Runs - 1 })
 	}
 	for _, n := range names {
 		if n != "r.p" {
